@@ -755,12 +755,22 @@ func (b *Book) FinalizeMelts() {
 		m := b.M[name]
 		for _, qid := range m.LQOrder {
 			q := m.LQ[qid]
-			for _, at := range q.Attempts {
+			// several requests may use one quote: a later request can only have made a pay call of its
+			// own if the earlier one's payment had failed for good (the backend refuses a second payment
+			// of an invoice that is in flight or paid), so the backend's final truth belongs to the LAST
+			// request that paid
+			lastPaid := -1
+			for i, at := range q.Attempts {
+				if at.Paid {
+					lastPaid = i
+				}
+			}
+			for i, at := range q.Attempts {
 				if !at.Paid {
 					continue
 				}
 				p := b.w.LN.Payments[m.Name+"|"+q.Hash]
-				success := at.State == "PAID" || (p != nil && p.Truth == ptSucceeded)
+				success := at.State == "PAID" || (p != nil && p.Truth == ptSucceeded && i == lastPaid)
 				if p != nil && p.Truth == ptInflight && at.State != "PAID" {
 					continue // not decided yet; judged once the payment reached its final outcome
 				}
